@@ -14,7 +14,7 @@ let labels_of_raw (raw : n list) : n list list =
       let (lab, rest) = take k tl [] in go rest (lab :: acc) in
   go raw []
 
-type cfg = { ups : string; ecs : bool; sets : entry list list; rules : rule list }
+type cfg = { ups : string; ecs : bool; sets : dset_entry list list; rules : rule list }
 
 let parse_cfg (spec : string) : cfg =
   let parts = List.filter_map (fun p -> match String.index_opt p '=' with
@@ -26,7 +26,7 @@ let parse_cfg (spec : string) : cfg =
         let kind = String.sub e 0 1 in
         let raw = bytes_of_hex (String.sub e 2 (String.length e - 2)) in
         let ls = labels_of_raw raw in
-        if kind = "f" then EFull ls else EDomain ls) (split '+' s)) (split ',' (get "S")) in
+        if kind = "f" then DsFull ls else DsDomain ls) (split '+' s)) (split ',' (get "S")) in
   let rules = List.map (fun r ->
       match split ':' r with
       | [s; rev; rej; fwd] ->
